@@ -2167,6 +2167,12 @@ func (c *Conn) handleRecordContent(
 ) (bool, packetOutcome, error) {
 	switch content := content.(type) {
 	case *protocol.ACK:
+		if _, is13 := c.state.(*dtlsstate.State13); !is13 {
+			// DTLS 1.2 has no ACK records. Passing one on would wake the handshake
+			// FSM without any handshake message, and a server that waits for the
+			// second ClientHello answers that with another HelloVerifyRequest.
+			return false, packetOutcome{}, nil
+		}
 		isLatestSeqNum := prepared.markPacketAsValid()
 
 		return isLatestSeqNum, packetOutcome{
